@@ -153,7 +153,15 @@ func GenOp(t *rapid.T, w *World, p *Profile) Op {
 	}
 	add("set", true)
 	add("remove", true)
-	add("save", true)
+	// never commit into a hole of a legacy store (older version loaded whose successor was deleted on the legacy side)
+	saveOK := w.Cur == w.Latest || w.Vers[w.Cur+1] != nil
+	if saveOK && Open("F29") && w.WRoot != nil && !hasUnstamped(w.WRoot) && w.WRoot.Version <= w.LegacyOrig {
+		if prev, ok := w.Reformatted[w.WRoot.Version]; ok && prev != w.WRoot {
+			saveOK = false // steer around F29: a second, different legacy node of one version would be re-formatted at (version,0)
+			w.Excl["F29"]++
+		}
+	}
+	add("save", saveOK)
 	add("rollback", true)
 	add("reopen", true)
 	add("prune", w.Latest > 0)
@@ -214,7 +222,7 @@ func GenOp(t *rapid.T, w *World, p *Profile) Op {
 		}
 		var target int64
 		if w.Latest > 0 && rapid.IntRange(0, 3).Draw(t, "old") == 0 {
-			target = rapid.Int64Range(w.First, w.Latest).Draw(t, "target")
+			target = rapid.SampledFrom(w.Retained()).Draw(t, "target")
 		}
 		if Open("F2") && !c.SkipFast && target != 0 && target != w.Latest && !w.indexCurrentOnDisk() {
 			c.SkipFast = true // steer around F2: index (re)built while an older version is loaded
@@ -238,14 +246,14 @@ func GenOp(t *rapid.T, w *World, p *Profile) Op {
 	case "prune_refuse":
 		return Op{Kind: "prune", N: w.Latest + int64(rapid.IntRange(0, 1).Draw(t, "over"))}
 	case "lvfo":
-		return Op{Kind: "lvfo", N: rapid.Int64Range(w.First, w.Latest).Draw(t, "to")}
+		return Op{Kind: "lvfo", N: rapid.SampledFrom(w.Retained()).Draw(t, "to")}
 	case "dvf":
-		return Op{Kind: "dvf", N: rapid.Int64Range(w.First, w.Latest).Draw(t, "to"), Flag: rapid.Bool().Draw(t, "fresh")}
+		return Op{Kind: "dvf", N: rapid.SampledFrom(w.Retained()).Draw(t, "to"), Flag: rapid.Bool().Draw(t, "fresh")}
 	case "hop":
 		c := genCfg(t, false)
-		return Op{Kind: "hop", N: rapid.Int64Range(w.First, w.Latest).Draw(t, "ver"), Flag: rapid.Bool().Draw(t, "compress"), Cfg: &c}
+		return Op{Kind: "hop", N: rapid.SampledFrom(w.Retained()).Draw(t, "ver"), Flag: rapid.Bool().Draw(t, "compress"), Cfg: &c}
 	case "pin":
-		return Op{Kind: "pin", N: rapid.Int64Range(w.First, w.Latest).Draw(t, "pinv")}
+		return Op{Kind: "pin", N: rapid.SampledFrom(w.Retained()).Draw(t, "pinv")}
 	case "unpin":
 		vs := make([]int64, 0, len(w.Pins))
 		for v := range w.Pins {
@@ -285,7 +293,7 @@ func GenOp(t *rapid.T, w *World, p *Profile) Op {
 			op.N = int64(rapid.IntRange(0, len(w.WKV)).Draw(t, "idx"))
 		case "versionedproof", "getversioned", "getimmutable", "export":
 			if w.Latest > 0 {
-				op.N = rapid.Int64Range(w.First, w.Latest).Draw(t, "rv")
+				op.N = rapid.SampledFrom(w.Retained()).Draw(t, "rv")
 			}
 		case "iterator":
 			op.Flag = rapid.Bool().Draw(t, "asc")
